@@ -115,3 +115,37 @@ pub fn run_cleanup(case: &Sx) -> Sx {
     let idem = again == file && again.write_to_string() == file.write_to_string();
     Sx::L(vec![Sx::s("OK"), dump, before, after, Sx::b(idem)])
 }
+
+/// MERGESNI case ( s<textA> s<textB> i<number of extra sort_new_items calls> )
+///   -> ( sOK s<text written after merge + sort_new_items> s<text after the extra calls> ) | ( sERR .. ) | ( sPANIC s<stage> )
+/// (C15: elements that a merge brings in are new elements; sort_new_items places them)
+pub fn run_merge_sni(case: &Sx) -> Sx {
+    let c = case.as_list();
+    let mut a = match load(&c[0].as_str()) {
+        Ok(f) => f,
+        Err(e) => return e,
+    };
+    let mut b = match load(&c[1].as_str()) {
+        Ok(f) => f,
+        Err(e) => return e,
+    };
+    let extra = if c.len() > 2 { c[2].as_int() } else { 0 };
+    if catch_unwind(AssertUnwindSafe(|| a.merge_modules(&mut b))).is_err() {
+        return Sx::L(vec![Sx::s("PANIC"), Sx::s("merge")]);
+    }
+    if catch_unwind(AssertUnwindSafe(|| a.sort_new_items())).is_err() {
+        return Sx::L(vec![Sx::s("PANIC"), Sx::s("sort_new_items")]);
+    }
+    let Ok(t1) = catch_unwind(AssertUnwindSafe(|| a.write_to_string())) else {
+        return Sx::L(vec![Sx::s("PANIC"), Sx::s("write")]);
+    };
+    for _ in 0..extra {
+        if catch_unwind(AssertUnwindSafe(|| a.sort_new_items())).is_err() {
+            return Sx::L(vec![Sx::s("PANIC"), Sx::s("sort_new_items again")]);
+        }
+    }
+    let Ok(t2) = catch_unwind(AssertUnwindSafe(|| a.write_to_string())) else {
+        return Sx::L(vec![Sx::s("PANIC"), Sx::s("write again")]);
+    };
+    Sx::L(vec![Sx::s("OK"), Sx::s(&t1), Sx::s(&t2)])
+}
